@@ -13,12 +13,14 @@ What is shown, for EVERY byte string `b`:
   `read_total` records that; `read_never_other` shows the fuel is never exhausted (the `fuel = 0` value
   `Err.other` is not an outcome), because every item of the three loops (`resources_loop_safe`,
   `ranges_loop_safe`, `tagged_loop_safe`) consumes ≥ 1 byte, raises, or ends the loop.
-* outcome. `PSD.read b 0` is a document or one of `IOError`, `ValueError`, `AssertionError`
-  (`outcome_is_exception`; each class is attained: `outcome_classes_attained`).
+* outcome. `PSD.read b 0` is a document or one of `IOError`, `ValueError`, `AssertionError`, `OverflowError`
+  (`outcome_is_exception`; each class is attained: `outcome_classes_attained`; `OverflowError` is
+  `fp.read(n)` / `fp.seek(n)` with `n ≥ 2^63`, reachable through the 8-byte length fields of a PSB).
 * cursor. Readers that do not seek stay inside the stream (`…_cursor`); `LayerInfo.read` and
   `LayerAndMaskInformation.read` end with `fp.seek(end_pos)`, and `end_pos` is computed from the declared
   length alone (`layer_info_cursor_is_end_pos`, `layer_and_mask_cursor_is_end_pos`), so in isolation they
-  can leave the cursor behind the end of the data (`…_can_pass_end`); the whole-file reader then fails in
+  can leave the cursor behind the end of the data (`…_can_pass_end`) though never at or behind `2^63`
+  (`seek_below_max_size`); the whole-file reader then fails in
   `ImageData.read` (`overrun_then_image_data_fails`, `psd_overrun_fails`), and when it succeeds it ends
   exactly at the end of the file (`read_cursor_bound`).
 * header. `Header.dec` is "extract seven fields, run the validators" (`header_dec_eq`); a header that is
@@ -77,12 +79,14 @@ theorem read_never_other (b : B) : PSD.read b 0 ≠ .error .other := (psd_errIn 
 /-! ### 3. the outcome is a document or an ordinary exception -/
 
 theorem outcome_is_exception {b : B} {x : Err} (h : PSD.read b 0 = .error x) :
-    x ∈ [Err.ioError, .valueError, .assertionError] := psd_errIn b 0 x h
+    x ∈ [Err.ioError, .valueError, .assertionError, .overflowError] := psd_errIn b 0 x h
 
-/-- the list is exact: a truncated file, a bad version, a short pascal string in a resource block -/
+/-- the list is exact: a truncated file, a bad version, a short pascal string in a resource block, a PSB
+section of `2^63` bytes -/
 theorem outcome_classes_attained :
     PSD.read (minimalPsd.take 30) 0 = .error .ioError ∧ PSD.read badVersionPsd 0 = .error .valueError ∧
-    PSD.read shortPascalPsd 0 = .error .assertionError := by decide +kernel
+    PSD.read shortPascalPsd 0 = .error .assertionError ∧ PSD.read overflowPsd 0 = .error .overflowError := by
+  decide +kernel
 
 /-- per section reader (any version, any stream, any position) -/
 theorem header_outcome (d : B) (p : Nat) : ErrIn (Header.dec d p) := (header_good d p).errIn
@@ -149,11 +153,22 @@ example : readLenBlock 0 4 1 [0, 0, 0, 2, 5, 6, 7] 0 = .ok ([5, 6], 6) ∧
 /-- the exceptions: `fp.seek(end_pos)` with `end_pos` = start + width + DECLARED length -/
 theorem layer_info_cursor_is_end_pos {v : Nat} {d : B} {p : Nat} {li : LayerInfo} {p' : Nat}
     (h : LayerInfo.dec v d p = .ok (li, p')) :
-    ∃ n, readU (secW v) d p = .ok (n, p + secW v) ∧ p' = p + secW v + n := layerInfo_cursor h
+    ∃ n, readU (secW v) d p = .ok (n, p + secW v) ∧ p' = p + secW v + n ∧ ¬ overflows p' d := layerInfo_cursor h
 
 theorem layer_and_mask_cursor_is_end_pos {v : Nat} {d : B} {p : Nat} {x : LayerAndMask} {p' : Nat}
     (h : LayerAndMask.dec v d p = .ok (x, p')) :
-    ∃ n, readU (secW v) d p = .ok (n, p + secW v) ∧ p' = p + secW v + n := layerAndMask_cursor h
+    ∃ n, readU (secW v) d p = .ok (n, p + secW v) ∧ p' = p + secW v + n ∧ ¬ overflows p' d := layerAndMask_cursor h
+
+/-- on a real stream (shorter than `2^63` bytes) the position after a seek is below `sys.maxsize + 1` -/
+theorem seek_below_max_size {v : Nat} {d : B} {p : Nat} {x : LayerAndMask} {p' : Nat}
+    (h : LayerAndMask.dec v d p = .ok (x, p')) (hd : d.length < pyMaxSize) : p' < pyMaxSize := by
+  obtain ⟨_, _, _, hov⟩ := layerAndMask_cursor h
+  exact lt_pyMaxSize_of_not_overflows hov hd
+
+theorem seek_below_max_size_layer_info {v : Nat} {d : B} {p : Nat} {x : LayerInfo} {p' : Nat}
+    (h : LayerInfo.dec v d p = .ok (x, p')) (hd : d.length < pyMaxSize) : p' < pyMaxSize := by
+  obtain ⟨_, _, _, hov⟩ := layerInfo_cursor h
+  exact lt_pyMaxSize_of_not_overflows hov hd
 
 /-- in isolation both can leave the cursor behind the end of the data (6 resp. 8 bytes, cursor 13 resp. 9) -/
 theorem layer_info_can_pass_end : LayerInfo.dec 1 [0, 0, 0, 9, 0, 0] 0 = .ok (⟨0, none, none⟩, 13) := by decide +kernel
